@@ -129,6 +129,11 @@ SPOKEN_HOUR_FORMS = {
 POD_PM = ["in the afternoon", "afternoon", "nachmittags", "am nachmittag", "in the evening", "evening", "abends",
           "am abend", "at night", "in the night", "nachts", "tonight", "night"]
 POD_AM = ["in the morning", "morning", "morgens", "vormittags", "am vormittag", "in the forenoon", "früh"]
+# modified parts of day next to a clock (+12 for the afternoon/evening/night family, unchanged for the morning family)
+POD_PM_MOD = ["early afternoon", "late afternoon", "in the early afternoon", "early evening", "late evening", "in the late evening", "late night",
+              "early night", "very late evening", "am frühen nachmittag", "später nachmittag", "früher nachmittag", "frühen abend", "spätem abend",
+              "am späten abend", "very late", "sehr spät"]
+POD_AM_MOD = ["early morning", "late morning", "in the early morning", "very early morning", "früher morgen", "very early", "sehr früh"]
 POD_CLOCK = {
     "h:MM": (lambda h, m: "%d:%02d" % (h, m), {}),
     "hh:MM": (lambda h, m: "%02d:%02d" % (h, m), {}),
@@ -413,5 +418,5 @@ def expression(r):
         pre = r.choice(list(SPOKEN))
         hf = SPOKEN_HOUR_FORMS[r.choice(list(SPOKEN_HOUR_FORMS))]
         return "spoken", "%s %s" % (pre, hf(h))
-    hh = r.randrange(1, 12)
-    return "podclock", "%d:%02d %s" % (hh, mi, r.choice(POD_PM + POD_AM))
+    hh = r.randrange(1, 12) if r.random() < 0.6 else r.randrange(0, 24)
+    return "podclock", "%d:%02d %s" % (hh, mi, r.choice(POD_PM + POD_AM + POD_PM_MOD + POD_AM_MOD))
